@@ -257,4 +257,10 @@ example : (({ accounts := [⟨5000, 0, 0, [], 0, 0, 0, []⟩, ⟨3000, 0, 0, [],
     (fun p => (p.units, p.nav)) = some (9000, some 1) := by
   decide +kernel
 
+/-- finding F36 (the excluded point `units ≠ 0` of the theorems above): withdrawing the whole value leaves no units, and with no units
+there is no unit net value (NaN in the code) — every later flow is converted with it -/
+example : (({ accounts := [⟨5000, 0, 0, [], 0, 0, 0, []⟩], units := 5000, staticNav := 1 } : Pf).depositWithdraw 0 (-5000) none).map
+    (fun p => (p.units, p.nav)) = some (0, none) := by
+  decide +kernel
+
 end RQ.Props.C03
